@@ -38,9 +38,9 @@ Chk(p, name, cond) ==
 Prefix(s, p) == Len(s) >= Len(p) /\ SubSeq(s, 1, Len(p)) = p
 IsPanic(r) == Prefix(r, "panic")
 
-(* C17 budget: peak heap at most 4 MiB + 2 KiB per input byte, no single request above 256 MiB,  *)
-(* at most 5 seconds                                                                             *)
-WithinBudget(n, peak, big, ms) == peak <= 4194304 + 2048 * n /\ big <= 268435456 /\ ms <= 5000
+(* C17 budget: peak heap at most 32 MiB + 64 KiB per input byte, no single request above 64 MiB, *)
+(* at most 5 seconds (a fixed linear bound; inputs are a few kilobytes at most)                  *)
+WithinBudget(n, peak, big, ms) == peak <= 33554432 + 65536 * n /\ big <= 67108864 /\ ms <= 5000
 
 BloomVec ==
   /\ E.ev = "bloomvec"
@@ -86,9 +86,16 @@ WireBad ==
   /\ Chk("C39", "strings-are-valid-utf8", OutcomeClass(E.o) # "C39")
   /\ Chk("C17", "input-cannot-blow-the-budget", ~E.over /\ E.o \notin {"abort", "timeout"})
 
-Other == E.ev \notin {"bloomvec", "bloomset", "chgrt", "idrt", "syncrt", "wire", "wirebad"}
+(* hexane: every load of every column type on mutated, hand-made and random bytes (C35) *)
+HexBad ==
+  /\ E.ev = "hexbad"
+  /\ Chk("C35", "loading-arbitrary-bytes-returns-a-column-or-an-error", ~IsPanic(E.o))
+  /\ Chk("C35", "a-column-that-loads-saves-to-bytes-that-load-to-the-same-values", ~Prefix(E.o, "bad:"))
+HexAgg == E.ev = "hexagg"
 
-Step == l <= Len(Rec) /\ l' = l + 1 /\ (BloomVec \/ BloomSet \/ ChgRT \/ IdRT \/ SyncRT \/ WireAgg \/ WireBad \/ Other)
+Other == E.ev \notin {"bloomvec", "bloomset", "chgrt", "idrt", "syncrt", "wire", "wirebad", "hexbad", "hexagg"}
+
+Step == l <= Len(Rec) /\ l' = l + 1 /\ (BloomVec \/ BloomSet \/ ChgRT \/ IdRT \/ SyncRT \/ WireAgg \/ WireBad \/ HexBad \/ HexAgg \/ Other)
 Init == l = 1
 Spec == Init /\ [][Step]_l
 
